@@ -3,6 +3,7 @@ package rules
 import (
 	"go/token"
 	"go/types"
+	"strings"
 
 	"golang.org/x/tools/go/ssa"
 
@@ -449,6 +450,21 @@ func sliceMadeHereV(v ssa.Value, seen map[ssa.Value]bool) bool {
 	case *ssa.Call:
 		if b, ok := x.Call.Value.(*ssa.Builtin); ok && b.Name() == "append" {
 			return sliceMadeHereV(x.Call.Args[0], seen)
+		}
+		// the result of a library function every return of which yields a slice it made itself
+		if g := ir.StaticCallee(x); g != nil && len(g.Blocks) > 0 && strings.HasPrefix(ir.PkgPathOf(g), ir.RootPath) && len(seen) < 64 {
+			okAll, nRet := true, 0
+			ir.EachInstr(g, func(b *ssa.BasicBlock, _ int, in ssa.Instruction) {
+				r, isRet := in.(*ssa.Return)
+				if !isRet || len(ir.Results(r)) != 1 || b == g.Recover {
+					return
+				}
+				nRet++
+				if !sliceMadeHereV(unspill(ir.Results(r)[0]), seen) {
+					okAll = false
+				}
+			})
+			return okAll && nRet > 0
 		}
 	case *ssa.Phi:
 		for _, e := range x.Edges {
